@@ -62,6 +62,42 @@ STRUCT = {
 }
 
 
+def random_layered_schema(rng):
+    """A random well-founded schema with wrapper chains of depth >= 2: leaves, textblocks, two layers of
+    containers whose content expressions mix required tails, options and alternatives, and a top node
+    that offers the outer containers in random order (the order decides which wrapper is explored first)."""
+    from prosemirror.model import Schema
+    templates = ["{x}+", "{x}*", "{x} {y}", "{x} {y}?", "({x} | {y})+", "{x}? {y}", "{x}{{2}}", "{x} {y}+", "{x}+ {y}", "({x} {y})+", "{x} | {y}"]
+    for _ in range(50):
+        nodes = {"text": {}, "tb1": {"content": "text*"}, "tb2": {"content": "text*", "attrs": {"r": {}}}, "lf": {}, "lfr": {"attrs": {"r": {}}}}
+        low = ["tb1", "tb2", "lf", "lfr"]
+        mids = [f"m{i}" for i in range(rng.randint(2, 4))]
+        tops = [f"t{i}" for i in range(rng.randint(2, 4))]
+        for m in mids:
+            x, y = rng.choice(low), rng.choice(low)      # well-founded: no required cycles
+            nodes[m] = {"content": rng.choice(templates).format(x=x, y=y)}
+            if rng.random() < 0.2:
+                nodes[m]["attrs"] = {"r": {}}
+        for t in tops:
+            x, y = rng.choice(mids), rng.choice(mids + low)
+            nodes[t] = {"content": rng.choice(templates).format(x=x, y=y)}
+        order = tops[:]
+        rng.shuffle(order)
+        nodes = {"doc": {"content": "(" + " | ".join(order + ([rng.choice(mids)] if rng.random() < 0.3 else [])) + ")+"}, **nodes}
+        spec = {"nodes": nodes}
+        try:
+            sch = Schema(spec)
+            # well-founded: every generatable type can actually be generated (its own content can be
+            # completed with generatable nodes); "lf+ tb2" with a non-generatable tb2 passes the library's
+            # dead-end test (upstream's too) but cannot be filled
+            if any(nt.create_and_fill() is None for nt in sch.nodes.values() if not nt.is_text and not nt.has_required_attrs()):
+                continue
+            return spec
+        except Exception:  # noqa: BLE001 - dead ends etc.: try another one
+            continue
+    return None
+
+
 def reach(cm):
     """Reachable match states with a shortest witness prefix (type names)."""
     states = [(cm, [])]
@@ -191,6 +227,10 @@ def run(tier: str, seed: int, t0: float) -> int:
     meta = []
     # ---- schemas
     fam = [("s5", S5), ("struct", STRUCT)] + [(n, schemas.spec_of(n)) for n in schemas.BUNDLED_PLUS + ["s1", "s3"]]
+    for k in range(12 if not thorough else 120):
+        spec = random_layered_schema(rng)
+        if spec is not None:
+            fam.append((f"rand{k}", spec))
     for name, spec in fam:
         js, exprs, evs = schema_jobs(name, spec, rng, stats)
         b = trace.Batch(js)
